@@ -98,6 +98,10 @@ var runDirSeq atomic.Int64
 func runDir() string {
 	base := envOr("VFSDIR", os.TempDir())
 	d := filepath.Join(base, fmt.Sprintf("run-%d-%d", os.Getpid(), runDirSeq.Add(1)))
+	if curBase != "" {
+		runRoots = append(runRoots, d)
+		d = filepath.Join(d, filepath.FromSlash(curBase))
+	}
 	if err := os.MkdirAll(d, 0o755); err != nil {
 		panic(err)
 	}
